@@ -21,6 +21,7 @@ class LoopGen:
         self.dynamic_bounds = dynamic_bounds
         self.allocs = allocs
         self.tag = 0
+        self.uses_div = False
 
     def fresh(self, p="x"):
         self.n += 1
@@ -48,6 +49,21 @@ class LoopGen:
         """alloc / dim / subview group observed through a test.op"""
         r = self.rng.random()
         self.tag += 1
+        if self.rng.random() < 0.15:
+            # a size computed by a division whose divisor is zero exactly when the code is not reached (loop bounded by the divisor, or
+            # an explicit guard): the operands are defined outside the loop, but the division must not be executed speculatively
+            self.uses_div = True
+            q, b = self.fresh("q"), self.fresh("buf")
+            guard = self.rng.random() < 0.4
+            if guard:
+                self.emit(ind, "scf.if %nz {")
+                ind += 1
+            self.emit(ind, f"{q} = arith.{self.rng.choice(['divui', 'ceildivui', 'divsi'])} {self.rng.choice(extra + ['%c4', '%c7'])}, %pn : index")
+            self.emit(ind, f"{b} = memref.alloc({q}) {{alignment = 64 : i64}} : memref<?xi8>")
+            self.emit(ind, f'"test.op"({b}) {{tag = {self.tag} : i32}} : (memref<?xi8>) -> ()')
+            if guard:
+                self.emit(ind - 1, "}")
+            return
         if r < 0.35:
             # alloc with sizes from outside the loop (hoistable) or iv-dependent (not hoistable)
             sz = self.rng.choice(extra + ["%c2", "%c4"] + (ivs if self.rng.random() < 0.3 else []))
@@ -142,6 +158,8 @@ class LoopGen:
                 self.effect(2, [], extra)
             self.loop(2, 1, self.rng.choice([1, 2, 2, 3]), [], extra, perfect=self.rng.random() < 0.6)
         self.emit(2, "func.return")
+        if self.uses_div:
+            self.lines[7:7] = ["    %pn = arith.addi %n0, %c0 : index", "    %nz = arith.cmpi ne, %pn, %c0 : index"]
         body = "\n".join(self.lines)
         text = ("builtin.module {\n  func.func @f(%A: memref<?x?xi8>, %n0: index, %n1: index, %s0: index, %m0: index) {\n"
                 + body + "\n  }\n}\n")
@@ -254,7 +272,7 @@ def run(pid: str, tier: str, seed: int, selftest=False, replay=None) -> int:
                 cases.append({"name": f"{name}|{pipe}@{fname}", "A": ia, "B": ib, "argdom": ad, "opqdom": [[0]],
                               "text": text, "b_text": str(fb[fname]), "pipe": pipe})
     rep.rule = (f"witnesses + repository inputs + {n_gen} generated loop nests (depth<=3, const/dynamic bounds and steps, ub not multiple of step, "
-                "lb != 0, imperfect nests, allocs/dims/subviews) x 3 pipelines of the real passes; TLC runs input and output for all oracles "
+                "lb != 0, imperfect nests, allocs/dims/subviews, sizes from divisions that are only reached with a non-zero divisor) x 3 pipelines of the real passes; TLC runs input and output for all oracles "
                 "(dynamic bounds incl. zero-trip); contract SameEffects; non-trivial = >=1 side-effect event and the pass changed the IR")
     CH = 500
     for lo in range(0, len(cases), CH):
